@@ -893,6 +893,10 @@ fn main() {
                 w.batch_sizes = vec![32000];
                 r.world(&w, &Bounds::new(tier.pick(1, 2), tier.pick(6, 40)));
             }
+            if !th {
+                // quick: one batch that just crosses the first bucket edge (ids 0..=3200), two steps
+                r.world(&seeded("nft-consecutive-bucket-edge", vec![3201], vec![1]), &Bounds::new(2, 8));
+            }
             if th {
                 r.world(&seeded("nft-consecutive-bucket-edge", vec![3199, 3200, 3201], vec![0, 1]), &Bounds::new(3, 40));
                 r.world(&seeded("nft-consecutive-max-batch", vec![32000], vec![0, 1]), &Bounds::new(2, 10));
